@@ -113,7 +113,16 @@ type streamDebugger struct {
 	opsBefore, opsKeys int
 	opsJudge           bool
 	opsChecks          int
+	// stack accounting over one instruction: reported pushes minus reported pops = change of the
+	// number of items on the two stacks (instructions built from reported pushes and pops only)
+	acctSize, acctPush, acctPop int
+	acctOn                      bool
+	acctChecks                  int
 }
+
+// c19Unreported: instructions that move items inside the stack without a reported pop
+// (OP_NIP, OP_ROLL, OP_ROT, OP_SWAP, OP_2ROT, OP_2SWAP take an item out from below the top).
+var c19Unreported = map[int]bool{0x77: true, 0x7a: true, 0x7b: true, 0x7c: true, 0x71: true, 0x72: true}
 
 func (d *streamDebugger) ev(kind byte, s *interpreter.State, data []byte) {
 	if d.limit > 0 && len(d.events) > d.limit {
@@ -128,6 +137,7 @@ func (d *streamDebugger) ev(kind byte, s *interpreter.State, data []byte) {
 			d.opVal = int(s.Scripts[s.ScriptIdx][s.OpcodeIdx].Value())
 		}
 	case evBeforeStep:
+		d.acctOn, d.acctSize, d.acctPush, d.acctPop = true, len(s.DataStack)+len(s.AltStack), 0, 0
 		// NumOps over an instruction outside any conditional: +1 for every opcode above OP_16,
 		// plus the number of public keys for an executed OP_CHECKMULTISIG(VERIFY) - in both eras
 		d.opsBefore, d.opsJudge, d.opsKeys = s.NumOps, len(s.CondStack) == 0, -1
@@ -145,6 +155,14 @@ func (d *streamDebugger) ev(kind byte, s *interpreter.State, data []byte) {
 			}
 		}
 	case evAfterStep:
+		if d.acctOn && d.opVal >= 0 && !c19Unreported[d.opVal] && s.ScriptIdx == d.opScript && !s.IsFinished {
+			d.acctChecks++
+			if got, want := d.acctPush-d.acctPop, len(s.DataStack)+len(s.AltStack)-d.acctSize; d.incons == "" && got != want {
+				d.incons = fmt.Sprintf("callback %d (AfterStep): over the instruction 0x%02x at offset %d of script %d the two stacks went from %d to %d items, the stack callbacks reported %d pushes and %d pops",
+					len(d.events)-1, d.opVal, d.opIdx, d.opScript, d.acctSize, d.acctSize+want, d.acctPush, d.acctPop)
+			}
+		}
+		d.acctOn = false
 		if d.opVal >= 0 && d.opsJudge && s.ScriptIdx == d.opScript && !s.IsFinished {
 			want := 0
 			if d.opVal > 0x60 {
@@ -223,6 +241,12 @@ func (d *streamDebugger) ev(kind byte, s *interpreter.State, data []byte) {
 				return nil
 			}
 			return append([]byte{}, st[len(st)-1]...)
+		}
+		switch kind {
+		case evAfterStackPush:
+			d.acctPush++
+		case evAfterStackPop:
+			d.acctPop++
 		}
 		switch kind {
 		case evBeforeStackPop:
@@ -513,6 +537,7 @@ func c19Judge(c *mon.Ctx, in *progInput) {
 	c.CountN("C19:stack-callback-snapshot-checks", int64(rec.stackChecks))
 	c.CountN("C19:code-separator-position-checks", int64(rec.sepChecks))
 	c.CountN("C19:conditional-stack-frame-checks", int64(rec.condChecks))
+	c.CountN("C19:stack-accounting-checks", int64(rec.acctChecks))
 	if rec.incons != "" {
 		good = false
 		c.Violationf("C19:stack-callback-snapshot-inconsistent:"+e, "%s; unlock=%x lock=%x flags=%#x", rec.incons, []byte(in.Unlock), []byte(in.Lock), in.Flags)
@@ -572,6 +597,30 @@ func c19Judge(c *mon.Ctx, in *progInput) {
 			}
 		}
 	}
+	// (f) a debugger written the way Go programs extend a default implementation: a struct that embeds
+	// debug.NewDebugger() (inheriting the Attach methods and anything else the value offers) and
+	// overrides the callbacks. It is told exactly what the hand-written recorder is told.
+	if (len(in.Unlock)+len(in.Lock))%3 == 0 {
+		emb := &c19Embedding{DefaultDebugger: debug.NewDebugger()}
+		err4, ok := run(emb)
+		if !ok {
+			return
+		}
+		c.Count("C19:embedding-debugger:runs")
+		if errText(err0) != errText(err4) {
+			good = false
+			c.Violationf("C19:verdict-changes-with-embedding-debugger:"+e, "without debugger: %s; with a debugger embedding debug.NewDebugger(): %s; unlock=%x lock=%x", errText(err0), errText(err4), []byte(in.Unlock), []byte(in.Lock))
+		}
+		same := len(emb.kinds) == len(rec.events)
+		for i := 0; same && i < len(emb.kinds); i++ {
+			same = emb.kinds[i] == rec.events[i].kind
+		}
+		if !same {
+			good = false
+			c.Violationf("C19:embedding-debugger:callback-stream-differs:"+e, "a debugger that embeds debug.NewDebugger() and overrides the callbacks received %d callbacks, the hand-written recorder %d (or in another order); unlock=%x lock=%x flags=%#x",
+				len(emb.kinds), len(rec.events), []byte(in.Unlock), []byte(in.Lock), in.Flags)
+		}
+	}
 	for _, evn := range rec.events {
 		c.Count("C19:callback:" + evNames[evn.kind])
 	}
@@ -590,6 +639,43 @@ func c19Judge(c *mon.Ctx, in *progInput) {
 		})
 	}
 }
+
+// c19Embedding embeds the library's default debugger and overrides every callback.
+type c19Embedding struct {
+	debug.DefaultDebugger
+	kinds []byte
+}
+
+func (d *c19Embedding) BeforeExecute(*interpreter.State) { d.kinds = append(d.kinds, evBeforeExecute) }
+func (d *c19Embedding) AfterExecute(*interpreter.State)  { d.kinds = append(d.kinds, evAfterExecute) }
+func (d *c19Embedding) BeforeStep(*interpreter.State)    { d.kinds = append(d.kinds, evBeforeStep) }
+func (d *c19Embedding) AfterStep(*interpreter.State)     { d.kinds = append(d.kinds, evAfterStep) }
+func (d *c19Embedding) BeforeExecuteOpcode(*interpreter.State) {
+	d.kinds = append(d.kinds, evBeforeExecuteOpcode)
+}
+func (d *c19Embedding) AfterExecuteOpcode(*interpreter.State) {
+	d.kinds = append(d.kinds, evAfterExecuteOpcode)
+}
+func (d *c19Embedding) BeforeScriptChange(*interpreter.State) {
+	d.kinds = append(d.kinds, evBeforeScriptChange)
+}
+func (d *c19Embedding) AfterScriptChange(*interpreter.State) {
+	d.kinds = append(d.kinds, evAfterScriptChange)
+}
+func (d *c19Embedding) BeforeStackPush(*interpreter.State, []byte) {
+	d.kinds = append(d.kinds, evBeforeStackPush)
+}
+func (d *c19Embedding) AfterStackPush(*interpreter.State, []byte) {
+	d.kinds = append(d.kinds, evAfterStackPush)
+}
+func (d *c19Embedding) BeforeStackPop(*interpreter.State) {
+	d.kinds = append(d.kinds, evBeforeStackPop)
+}
+func (d *c19Embedding) AfterStackPop(*interpreter.State, []byte) {
+	d.kinds = append(d.kinds, evAfterStackPop)
+}
+func (d *c19Embedding) AfterSuccess(*interpreter.State)      { d.kinds = append(d.kinds, evAfterSuccess) }
+func (d *c19Embedding) AfterError(*interpreter.State, error) { d.kinds = append(d.kinds, evAfterError) }
 
 var (
 	c19Shared    debug.DefaultDebugger
@@ -694,6 +780,22 @@ func init() {
 				}
 			}
 		}
+		c.Phase("alt-stack-across-scripts") // the first script ends with items left on the alt stack (they are dropped there), the next one uses the alt stack again: every move is reported
+		{
+			n := uint64(0)
+			unlocks := [][]byte{{0x51, 0x57, 0x6b}, {0x51, 0x57, 0x6b, 0x58, 0x6b}, {0x51}, {0x51, 0x52, 0x6b, 0x6c, 0x6b}, {0x57, 0x76, 0x6b}}
+			locks := [][]byte{{0x76, 0x6b, 0x6c, 0x75}, {0x6b, 0x51}, {0x76, 0x76, 0x6b, 0x6b, 0x6c, 0x6c, 0x87}, {0x53, 0x6b, 0x6c, 0x53, 0x87, 0x69}, {0x6c}, {0x51, 0x6b, 0x51, 0x6b, 0x51}}
+			for _, fl := range []uint32{0, uint32(scriptflag.UTXOAfterGenesis), uint32(scriptflag.VerifyCleanStack | scriptflag.Bip16), uint32(scriptflag.UTXOAfterGenesis | scriptflag.VerifyMinimalData)} {
+				for _, u := range unlocks {
+					for _, l := range locks {
+						n++
+						if c.Case(n) {
+							judge(c, &progInput{Unlock: u, Lock: l, Flags: fl, Src: "alt-stack-across-scripts", Ctx: progCtx{HasTx: n%2 == 0, Version: 1, Sequence: 0xffffffff, Sats: 5}})
+						}
+					}
+				}
+			}
+		}
 		c.Phase("catalog")
 		for i, in := range c05Catalog() {
 			if c.Case(uint64(i)) {
@@ -757,6 +859,9 @@ func init() {
 		}
 		if a.Cov["C19:step-continuity-checks"] < 10000 {
 			return "too few step-continuity comparisons"
+		}
+		if a.Cov["C19:stack-accounting-checks"] < 10000 || a.Cov["C19:embedding-debugger:runs"] < 1000 || a.Cov["C19:src:alt-stack-across-scripts"] == 0 {
+			return "too few stack-accounting checks / runs of the embedding debugger / alt-stack programs"
 		}
 		return ""
 	}
